@@ -25,7 +25,7 @@ broadcast proof fn lemma_compl_covered_all(s: Seq<(usize, usize)>, n: int, acc: 
 }
 
 impl EdgeList {
-    /*@fn impl=EdgeList trait=Complement name=complement loopify=BTreeSet fuse wrap=chain props=C11,C13
+    /*@fn impl=EdgeList trait=Complement name=complement loopify=BTreeSet noisolation fuse wrap=chain props=C11,C13
     requires
         self.wf(),
     ensures
